@@ -286,7 +286,7 @@ def case_paths(log, shape, rel="<=", free=False, o_spec="generic", t_spec="gener
                m.is_downward_path, m.flavor_shift)
     from eko.quantities.heavy_quarks import MatchingScales
 
-    decide = Decider(log)
+    decide = Decider(log, max_replays=12)  # one replay per distinct failing clause
     if pairs is None:
         nfo = NFS if free else NFS + (None,)
         pairs = [(a, b) for a in nfo for b in nfo]
